@@ -356,7 +356,8 @@ def params? (ps : List Nat) : Option (List (List (Option Nat))) :=
 inductive SgrOp where
   | reset
   | bold | italic | blink | reverse | strike
-  | normalIntensity | noItalic | noBlink | noStrike
+  | normalIntensity | noItalic | noBlink | noStrike | noReverse
+  | fgDefault | bgDefault | ulDefault
   /-- 0 none, 1 straight, 2 double, 3 curly, 4 dotted, 5 dashed -/
   | underline (style : Nat)
   | fgRgb (r g b : Nat) | bgRgb (r g b : Nat) | ulRgb (r g b : Nat)
@@ -394,7 +395,11 @@ def sgrSem : List (List (Option Nat)) → List SgrOp
       | [some 23] => .noItalic
       | [some 24] => .underline 0
       | [some 25] => .noBlink
+      | [some 27] => .noReverse
       | [some 29] => .noStrike
+      | [some 39] => .fgDefault
+      | [some 49] => .bgDefault
+      | [some 59] => .ulDefault
       | [some 38, some 2, _, some r, some g, some b] => .fgRgb r g b
       | [some 48, some 2, _, some r, some g, some b] => .bgRgb r g b
       | [some 58, some 2, _, some r, some g, some b] => .ulRgb r g b
@@ -618,6 +623,48 @@ def meaning (caps : Caps) : Cmd → List Op
   | .title text => [.title text]
   | .deviceAttrs => [.da1]
   | .keyboardLevel n => kittyMeaning caps n
+
+/-! ## SGR semantics on an attribute state (specification, shared by C05 and C06) -/
+
+/-- the attribute state of a terminal as far as SGR can change it -/
+structure Attr where
+  fg : Option ((Nat × Nat × Nat) ⊕ Nat)
+  bg : Option ((Nat × Nat × Nat) ⊕ Nat)
+  ul : Option ((Nat × Nat × Nat) ⊕ Nat)
+  under : Nat
+  bold : Bool
+  italic : Bool
+  blink : Bool
+  reverse : Bool
+  strike : Bool
+  deriving DecidableEq
+
+def Attr.default : Attr := ⟨none, none, none, 0, false, false, false, false, false⟩
+
+/-- ECMA-48 / xterm meaning of one SGR operation -/
+def applySgr (a : Attr) : SgrOp → Attr
+  | .reset => Attr.default
+  | .bold => { a with bold := true }
+  | .italic => { a with italic := true }
+  | .blink => { a with blink := true }
+  | .reverse => { a with reverse := true }
+  | .strike => { a with strike := true }
+  | .normalIntensity => { a with bold := false }
+  | .noItalic => { a with italic := false }
+  | .noBlink => { a with blink := false }
+  | .noStrike => { a with strike := false }
+  | .noReverse => { a with reverse := false }
+  | .fgDefault => { a with fg := none }
+  | .bgDefault => { a with bg := none }
+  | .ulDefault => { a with ul := none }
+  | .underline k => { a with under := k }
+  | .fgRgb r g b => { a with fg := some (.inl (r, g, b)) }
+  | .bgRgb r g b => { a with bg := some (.inl (r, g, b)) }
+  | .ulRgb r g b => { a with ul := some (.inl (r, g, b)) }
+  | .fgIdx i => { a with fg := some (.inr i) }
+  | .bgIdx i => { a with bg := some (.inr i) }
+  | .ulIdx i => { a with ul := some (.inr i) }
+  | .unknown _ => a
 
 /-! ## validity domain of the property -/
 
